@@ -125,7 +125,10 @@ func (c *connectionRequest) connect(ctx context.Context) (*connectionResult, err
 			}
 			c.player.handleDisconnectWithReason(result.attemptedConn, reason, false)
 		}
-		c.player.resetInFlightConnection()
+		// Nothing to reset here: internalConnect already released the in-flight slot if
+		// (and only if) it was taken by this request. Resetting unconditionally would
+		// clear the slot of another request that is still in flight, e.g. when this
+		// request was merely answered with InProgressConnectionStatus.
 	}
 	return result, err
 }
